@@ -268,4 +268,119 @@ theorem writeAll_perm {l l' : List (Str × Str)} (hp : l.Perm l')
   | trans h1 _ ih1 ih2 =>
     rw [ih1 hn, ih2 ((List.Perm.map _ h1).nodup_iff.mp hn)]
 
+/-! ### a reordered lib compares equal (`==`) -/
+
+theorem lookupPV_eq_lookup (k : Str) (m : List (Str × PV)) : lookupPV k m = lookup k m := by
+  induction m with
+  | nil => rfl
+  | cons e r ih => obtain ⟨k', v⟩ := e; simp only [lookupPV, lookup, ih]
+
+theorem lookup_of_mem_nodup_pv {m : List (Str × PV)} (hn : (keys m).Nodup) {e : Str × PV} (he : e ∈ m) :
+    lookup e.1 m = some e.2 :=
+  Kern.lookup_of_mem_nodup hn (by cases e; exact he)
+
+mutual
+/-- well-formed at every depth, also inside arrays: every dictionary has distinct keys
+    (what a `plist::Dictionary` guarantees) -/
+def WFAll : PV → Prop
+  | .dict es => (keys es).Nodup ∧ WFAllE es
+  | .arr xs => WFAllA xs
+  | _ => True
+def WFAllE : List (Str × PV) → Prop
+  | [] => True
+  | (_, v) :: r => WFAll v ∧ WFAllE r
+def WFAllA : List PV → Prop
+  | [] => True
+  | v :: r => WFAll v ∧ WFAllA r
+end
+
+/-- how `entriesIn` is established -/
+theorem entriesIn_of (a b : List (Str × PV))
+    (h : ∀ e ∈ a, ∃ v', lookup e.1 b = some v' ∧ pvEq e.2 v' = true) : entriesIn a b = true := by
+  induction a with
+  | nil => simp [entriesIn]
+  | cons e r ih =>
+    obtain ⟨k, v⟩ := e
+    obtain ⟨v', h1, h2⟩ := h (k, v) (by simp)
+    simp only [entriesIn, lookupPV_eq_lookup, h1, h2, Bool.true_and]
+    exact ih (fun e he => h e (List.mem_cons_of_mem _ he))
+
+mutual
+theorem pvEq_refl : ∀ v : PV, WFAll v → pvEq v v = true
+  | .int _, _ => by simp [pvEq]
+  | .str _, _ => by simp [pvEq]
+  | .dict es, h => by
+    have h' : (keys es).Nodup ∧ WFAllE es := by simpa only [WFAll] using h
+    simp only [pvEq, beq_self_eq_true, Bool.true_and]
+    apply entriesIn_of
+    intro e he
+    exact ⟨e.2, lookup_of_mem_nodup_pv h'.1 he, entries_refl es h'.2 e he⟩
+  | .arr xs, h => by
+    have h' : WFAllA xs := by simpa only [WFAll] using h
+    simp only [pvEq]; exact arr_refl xs h'
+theorem entries_refl : ∀ es : List (Str × PV), WFAllE es → ∀ e ∈ es, pvEq e.2 e.2 = true
+  | [], _, _, he => by simp at he
+  | (k, v) :: r, h, e, he => by
+    have h' : WFAll v ∧ WFAllE r := by simpa only [WFAllE] using h
+    rcases List.mem_cons.mp he with rfl | he'
+    · exact pvEq_refl v h'.1
+    · exact entries_refl r h'.2 e he'
+theorem arr_refl : ∀ xs : List PV, WFAllA xs → arrEq xs xs = true
+  | [], _ => by simp [arrEq]
+  | v :: r, h => by
+    have h' : WFAll v ∧ WFAllA r := by simpa only [WFAllA] using h
+    simp only [arrEq, pvEq_refl v h'.1, arr_refl r h'.2, Bool.and_self]
+end
+
+theorem reorderE_keys : ∀ {es es' : List (Str × PV)}, ReorderE es es' → keys es = keys es'
+  | _, _, .nil => rfl
+  | _, _, @ReorderE.cons k v v' r r' _ hr => by
+    have := reorderE_keys hr
+    simp only [keys, List.map_cons] at this ⊢
+    rw [this]
+
+mutual
+theorem pvEq_of_reorder : ∀ {v v' : PV}, Reorder v v' → WFAll v → pvEq v v' = true
+  | _, _, .refl v, h => pvEq_refl v h
+  | _, _, @Reorder.dict es es' es'' hE hp, h => by
+    have h' : (keys es).Nodup ∧ WFAllE es := by simpa only [WFAll] using h
+    have hk : keys es = keys es' := reorderE_keys hE
+    have hl : es.length = es''.length := by
+      have h1 : es.length = es'.length := by
+        have := congrArg List.length hk; simpa [keys] using this
+      rw [h1, hp.length_eq]
+    have hn' : (keys es').Nodup := by rw [← hk]; exact h'.1
+    have hn'' : (keys es'').Nodup :=
+      (List.Perm.map (fun e : Str × PV => e.1) hp).nodup_iff.mp hn'
+    simp only [pvEq, hl, beq_self_eq_true, Bool.true_and]
+    apply entriesIn_of
+    intro e he
+    obtain ⟨v', hm, hv⟩ := reorderE_mem hE h'.2 e he
+    exact ⟨v', lookup_of_mem_nodup_pv hn'' (hp.subset hm), hv⟩
+theorem reorderE_mem : ∀ {es es' : List (Str × PV)}, ReorderE es es' → WFAllE es →
+    ∀ e ∈ es, ∃ v', (e.1, v') ∈ es' ∧ pvEq e.2 v' = true
+  | _, _, .nil, _, _, he => by simp at he
+  | _, _, @ReorderE.cons k v v' r r' hv hr, h, e, he => by
+    have h' : WFAll v ∧ WFAllE r := by simpa only [WFAllE] using h
+    rcases List.mem_cons.mp he with rfl | he'
+    · exact ⟨v', by simp, pvEq_of_reorder hv h'.1⟩
+    · obtain ⟨w, hw1, hw2⟩ := reorderE_mem hr h'.2 e he'
+      exact ⟨w, List.mem_cons_of_mem _ hw1, hw2⟩
+end
+
+mutual
+theorem wf_of_wfAll : ∀ v : PV, WFAll v → WF v
+  | .dict es, h => by
+    have h' : (keys es).Nodup ∧ WFAllE es := by simpa only [WFAll] using h
+    simp only [WF]; exact ⟨h'.1, wfE_of_wfAllE es h'.2⟩
+  | .int _, _ => by simp [WF]
+  | .str _, _ => by simp [WF]
+  | .arr _, _ => by simp [WF]
+theorem wfE_of_wfAllE : ∀ es : List (Str × PV), WFAllE es → WFE es
+  | [], _ => by simp [WFE]
+  | (k, v) :: r, h => by
+    have h' : WFAll v ∧ WFAllE r := by simpa only [WFAllE] using h
+    simp only [WFE]; exact ⟨wf_of_wfAll v h'.1, wfE_of_wfAllE r h'.2⟩
+end
+
 end PlistM
